@@ -755,9 +755,14 @@ class Provides(Declaration):  # Really named ProvidesClass
     """
 
     def __init__(self, cls, *interfaces):
-        self.__args = (cls, ) + interfaces
         self._cls = cls
         bases = self._add_interfaces_to_cls(interfaces, cls)
+        # What we pickle (and show) is what is declared here: without
+        # the interfaces stripped as redundant just now. Pickling the
+        # original arguments would bring those back if *cls* stops
+        # implementing them later, and the copy would provide more than
+        # this object does.
+        self.__args = (cls, ) + bases[:-1]
         # If redundant interfaces were stripped, this declaration depends
         # on what *cls* implemented right now and must not be shared with
         # later declarations (see ``Provides``).
